@@ -583,6 +583,11 @@ def run(rep, tier):
             rep.ok('R04.13', what, 'accepted difference: ' + ACCEPTED_FAST[(side, key[0], key[1])])
             continue
         rep.fail('R04.13', what, fsite.get(key, 'src/uscxml/transform/ChartToC.cpp'), '%s occurs %d time(s) in FastMicroStep::step and %d time(s) in the emitted C step function: the two are the same algorithm written twice, one of them was changed alone' % (what, fcnt, ccnt))
+    # ---- R04.18 in the parallel-completion check a final state stands for its parent only
+    rep.rule('R04.18', 'done.state of a parallel is raised when every region is in a final state of ITS OWN: in the emitted check an active final state clears its parent from the set of unfinished states, not all of its ancestors (a final nested below a region\'s child must not finish the region)')
+    wide = [k_ for k_ in Cc if k_[0] in ('AND_NOT', 'XOR') and len(k_[1]) == 2 and k_[1][0] == 'tmp_states' and k_[1][1].endswith('.ancestors')]
+    rep.check(not wide, 'R04.18', 'emitted step|a final child vouches for all its ancestors', 'src/uscxml/transform/ChartToC.cpp', 'in the emitted parallel-completion check an active final state %s' % (
+        'clears its parent only' if not wide else 'clears ALL its ancestors from tmp_states (%s): with P{A{a1,af}, B{B1{b11,b1f}, bf}} and af, b1f active the deep final b1f finishes region B and done.state.P is raised' % ', '.join('%s(%s)' % (k_[0], ', '.join(k_[1])) for k_ in wide)))
     # ---- R04.10 history default in the emitted step function
     for alt, cg in cgs.items():
         hn, hd = _skel_mod().history_default_condition(cg.fn('uscxml_step'))
